@@ -466,3 +466,34 @@ def gen_chain_prog(rng):
     if rng.chance(0.3):
         p.items.append(('data', 8, ['far ? 1 : 2'] if boolean else ['far + 1']))
     return p
+
+
+def gen_tie_prog(rng):
+    """directed family for the rejection class 'two equally small rules match': the same pattern twice with equal
+    static sizes, in the same block or at the same rule index of two different blocks"""
+    isa = Isa()
+    m = rng.choice(['ld', 'mov', 'inc', 'st.b'])
+    shape = rng.below(3)
+    if shape == 0:
+        mk = lambda op: dict(m=m, ops=[('expr', 'x', None, ('', ''))], prod='0x%02x @ x`8' % op)
+    elif shape == 1:
+        mk = lambda op: dict(m=m, ops=[('reg', 'a')], prod='0x%02x' % op)
+    else:
+        mk = lambda op: dict(m=m, ops=[('expr', 'x', 'u8', ('', ''))], prod='0x%02x @ x' % op)
+    pre = rng.range(0, 2)
+    for i in range(pre):
+        isa.rules.append(dict(m='nop%d' % i, ops=[], prod='0x%02x' % rng.below(256)))
+    isa.rules.append(mk(rng.below(256)))
+    split = len(isa.rules)
+    for i in range(pre):
+        isa.rules.append(dict(m='hlt%d' % i, ops=[], prod='0x%02x' % rng.below(256)))
+    isa.rules.append(mk(rng.below(256)))
+    if rng.chance(0.7):
+        isa.cuts = [0, split, len(isa.rules)]      # same rule index in two blocks
+    p = Prog(isa)
+    p.names.append('l0'); p.items.append(('label', 'l0'))
+    r = isa.rules[pre]
+    p.items.append(('instr', pre, [str(rng.below(200))] if any(o[0] == 'expr' for o in r['ops']) else []))
+    if rng.chance(0.5):
+        p.items.append(('data', 8, ['l0']))
+    return p
